@@ -5,9 +5,11 @@ import TsVerif.C03.Derive
 An operator table declares binary operators (level, left/right associativity) and prefix operators
 (level).  `opGrammar` is the tree-sitter grammar the harness generates for a table (the Lean driver
 checks that the grammar.json it was handed *is* this grammar); `pratt` is the reference parser.
-Decision rule (the one tree-sitter documents for `prec.left/right`): with a pending operator of
-level `lv` to the left and an incoming binary operator of level `p`, continue to the right
-(shift) iff `p > lv`, or `p = lv` and the pending operator is right-associative.
+Decision rule (the one tree-sitter documents for `prec` / `prec.left/right`): with a pending operator of
+level `lv` to the left and an incoming binary or postfix operator of level `p`, continue to the
+right (shift) iff `p > lv`, or `p = lv` and the pending operator is right-associative.  A rule
+without any PREC wrapper has the default precedence, which compares like the integer 0 against
+integer precedences (negative levels bind weaker than an un-annotated rule, positive ones tighter).
 -/
 namespace TsVerif.C03
 
@@ -18,21 +20,26 @@ structure BinOp where
   rule : String
   deriving DecidableEq, Repr, Inhabited
 
+/-- a prefix or postfix operator; `annotated = false`: the rule has no PREC wrapper at all, its
+precedence is the default, which compares like the integer 0 -/
 structure UnOp where
   text : String
   level : Int
   rule : String
+  annotated : Bool := true
   deriving DecidableEq, Repr, Inhabited
 
 structure OpTable where
   bin : List BinOp := []
   un : List UnOp := []
+  post : List UnOp := []
   deriving Repr, Inhabited
 
 inductive OpTok where
   | atom | lpar | rpar
   | bin (k : Nat)
   | un (k : Nat)
+  | post (k : Nat)
   deriving DecidableEq, Repr, Inhabited
 
 inductive ETree where
@@ -40,12 +47,14 @@ inductive ETree where
   | paren (e : ETree)
   | bin (k : Nat) (l r : ETree)
   | un (k : Nat) (e : ETree)
+  | post (k : Nat) (e : ETree)
   deriving DecidableEq, Repr, Inhabited
 
 namespace OpTable
 def binLevel (t : OpTable) (k : Nat) : Int := (t.bin.getD k default).level
 def binRight (t : OpTable) (k : Nat) : Bool := (t.bin.getD k default).right
 def unLevel (t : OpTable) (k : Nat) : Int := (t.un.getD k default).level
+def postLevel (t : OpTable) (k : Nat) : Int := (t.post.getD k default).level
 end OpTable
 
 /-- The pending operator to the left: its level and whether an equal level continues to the right. -/
@@ -87,6 +96,10 @@ mutual
           | some (rhs, r') => parseLoop t f ctx (.bin k lhs rhs) r'
           | none => none
         else some (lhs, toks)
+      | .post k :: r =>
+        -- a postfix operator completes at once: no operand to its right, nothing stays pending
+        if shouldShift ctx (t.postLevel k) then parseLoop t f ctx (.post k lhs) r
+        else some (lhs, toks)
       | _ => some (lhs, toks)
 end
 
@@ -101,14 +114,21 @@ def ETree.yield : ETree → List OpTok
   | .paren e => .lpar :: e.yield ++ [.rpar]
   | .bin k l r => l.yield ++ .bin k :: r.yield
   | .un k e => .un k :: e.yield
+  | .post k e => e.yield ++ [.post k]
 
 /-- The grammar the harness writes for an operator table (harness/src/bin/c03/gram.rs `op_grammar`). -/
 def opGrammarRules (t : OpTable) : List (String × Rule) :=
   [("program", Rule.sym "_e"),
-   ("_e", choiceOf ([Rule.sym "num", Rule.sym "paren"] ++ t.bin.map (fun b => Rule.sym b.rule) ++ t.un.map (fun u => Rule.sym u.rule)))] ++
+   ("_e", choiceOf ([Rule.sym "num", Rule.sym "paren"] ++ t.bin.map (fun b => Rule.sym b.rule) ++
+      t.un.map (fun u => Rule.sym u.rule) ++ t.post.map (fun u => Rule.sym u.rule)))] ++
   t.bin.map (fun b => (b.rule, Rule.prec (if b.right then .right else .left) b.level
       (seqOf [Rule.sym "_e", Rule.str b.text, Rule.sym "_e"]))) ++
-  t.un.map (fun u => (u.rule, Rule.prec .plain u.level (seqOf [Rule.str u.text, Rule.sym "_e"]))) ++
+  t.un.map (fun u => (u.rule,
+    if u.annotated then Rule.prec .plain u.level (seqOf [Rule.str u.text, Rule.sym "_e"])
+    else seqOf [Rule.str u.text, Rule.sym "_e"])) ++
+  t.post.map (fun u => (u.rule,
+    if u.annotated then Rule.prec .plain u.level (seqOf [Rule.sym "_e", Rule.str u.text])
+    else seqOf [Rule.sym "_e", Rule.str u.text])) ++
   [("paren", seqOf [Rule.str "(", Rule.sym "_e", Rule.str ")"]),
    ("num", Rule.pat "[0-9]+")]
 
@@ -124,6 +144,9 @@ def ETree.toV (t : OpTable) : ETree → VNode
   | .un k e =>
     let u := t.un.getD k default
     .mk u.rule true false none [leafV u.text false, e.toV t]
+  | .post k e =>
+    let u := t.post.getD k default
+    .mk u.rule true false none [e.toV t, leafV u.text false]
 
 def progV (t : OpTable) (e : ETree) : VNode := .mk "program" true false none [e.toV t]
 
